@@ -1,6 +1,7 @@
 package main
 
 import (
+	"time"
 	"log/slog"
 	"fmt"
 	"bytes"
@@ -117,6 +118,8 @@ func emitQ(w *tr.Writer, e qEv) {
 		m["from"], m["to"], m["len"] = e.From, e.To, e.Len
 	case "get":
 		m["res"], m["len"] = e.Res, e.Len
+	case "stuck":
+		m["n"] = e.N
 	case "still":
 		if e.Was == nil {
 			e.Was = []int{}
@@ -293,12 +296,27 @@ func c18(args []string) {
 				}
 			}(g)
 		}
-		wg.Wait()
+		// every call returns: if the adders and readers have not all finished after 20 s the queue has locked up
+		finished := make(chan struct{})
+		go func() { wg.Wait(); close(finished) }()
+		stuck := false
+		select {
+		case <-finished:
+		case <-time.After(20 * time.Second):
+			stuck = true
+		}
 		verifhook.Handler = nil
+		mu.Lock()
 		sort.Slice(evs, func(i, j int) bool { return evs[i].Stamp < evs[j].Stamp })
 		emitQ(w, qEv{Ev: "cnew", N: n})
 		for _, e := range evs {
 			emitQ(w, e)
+		}
+		mu.Unlock()
+		if stuck {
+			// the blocked goroutines cannot be recovered: report and stop here
+			emitQ(w, qEv{Ev: "stuck", N: n})
+			return
 		}
 	}
 }
